@@ -270,7 +270,67 @@ func scenarios() []scenario {
 				return []job{run, run}
 			}})
 	}
+	// S10 two runs each load "their own" input with text.ReadFile from the same path and put it into differently
+	// laid-out file sets: what ReadFile returns is the caller's alone (a mutable *File: AddFile sets its offset)
+	sc = append(sc, scenario{name: `S10 two runs load the same path with text.ReadFile into differently laid-out file sets`, bound: [2]int{1, 2},
+		threads: func() []job {
+			path := scratchInput("1+\n(2")
+			load := func(before int) job {
+				return func(pt func()) string {
+					pt()
+					f, err := text.ReadFile(path)
+					if err != nil {
+						return "cannot read the scratch input: " + err.Error()
+					}
+					pt()
+					fs := parsley.NewFileSet()
+					if before > 0 {
+						fs.AddFile(text.NewFile("before", []byte(strings.Repeat("x", before))))
+					}
+					fs.AddFile(f)
+					pt()
+					ctx := parsley.NewContext(fs, text.NewReader(f))
+					v, perr := parsley.Evaluate(ctx, arith)
+					msg := fmt.Sprint(perr)
+					if i := strings.LastIndex(msg, "/"); i >= 0 {
+						msg = msg[:strings.Index(msg, " at ")+4] + msg[i+1:] // keep the base name only
+					}
+					return fmt.Sprintf("value=%#v err=%s first position=%d calls=%d", v, msg, int(f.Pos(0)), ctx.CallCount())
+				}
+			}
+			return []job{load(0), load(5)}
+		}})
 	return sc
+}
+
+// scratchInput writes content to a scratch file of this process (once) and returns its path.
+var scratchPaths = map[string]string{}
+var scratchDir string
+
+func scratchInput(content string) string {
+	if p, ok := scratchPaths[content]; ok {
+		return p
+	}
+	if scratchDir == "" {
+		d, err := os.MkdirTemp("", "verif-c14-")
+		if err != nil {
+			panic("C14 harness: " + err.Error())
+		}
+		scratchDir = d
+	}
+	p := filepath.Join(scratchDir, fmt.Sprintf("input%d.expr", len(scratchPaths)))
+	if err := os.WriteFile(p, []byte(content), 0o600); err != nil {
+		panic("C14 harness: " + err.Error())
+	}
+	scratchPaths[content] = p
+	return p
+}
+
+func cleanupScratch() {
+	if scratchDir != "" {
+		os.RemoveAll(scratchDir)
+		scratchDir, scratchPaths = "", map[string]string{}
+	}
 }
 
 type c14Case struct {
@@ -393,6 +453,7 @@ func compact(c []int) string {
 }
 
 func c14Run(env *explore.Env) *explore.Result {
+	defer cleanupScratch()
 	res := explore.NewResult()
 	scs := scenarios()
 	maxExec := int64(60000)
@@ -418,6 +479,7 @@ func c14Run(env *explore.Env) *explore.Result {
 // RacePassMain is the body of `verif-race racepass <tier>`: the scenario jobs and the workload corpora run on
 // free-running goroutines that share parser graphs and synchronise only at the final join.
 func RacePassMain(tier string) {
+	defer cleanupScratch()
 	current = nil
 	counts := map[string]int{}
 	var mu sync.Mutex
@@ -862,6 +924,7 @@ func mark(m map[string]map[string]bool, v, how string) {
 }
 
 func c14Replay(raw json.RawMessage) *explore.Result {
+	defer cleanupScratch()
 	res := explore.NewResult()
 	var c c14Case
 	if err := json.Unmarshal(raw, &c); err != nil {
